@@ -1,7 +1,7 @@
-(* C18 — matching: the string walk of Exists/matchHierarchy decides the
-   label-level specification (Spec.blocked_spec) for every list and every
-   name whose labels need no escaping; label boundaries; root entries;
-   the counterexample for labels containing an escaped dot; reply shape. *)
+(* C18 — matching: the escape-aware string walk of Exists/matchHierarchy decides
+   the label-level specification (Spec.blocked_spec) for every list and every
+   wire name (labels of arbitrary bytes, written as dns.UnpackDomainName writes
+   them); label boundaries; root entries; reply shape. *)
 From Sdns Require Import Common.Base Gen.C18 C18.Model C18.Spec.
 Open Scope N_scope.
 
@@ -34,6 +34,11 @@ Lemma gen_wild_prefix :
   set_wildp = [42; 46] /\ remove_wildp = [42; 46] /\ persist_wildp = [42; 46] /\
   set_wild_skip = 2 /\ remove_wild_skip = 2.
 Proof. repeat split; reflexivity. Qed.
+Lemma gen_persistable : persist_comment_char = 35 /\ persistable_comment_strs = [[35]].
+Proof. split; reflexivity. Qed.
+(* the names readBlocklists skips / loadInitial deletes are the ones CreateTemp makes *)
+Lemma gen_temp_prefix : hd [] local_temp_prefix_strs ++ [42] = hd [] persist_temp_strs.
+Proof. reflexivity. Qed.
 Lemma gen_comment : comment_str = [35] /\ comment_char = 35 /\ parse_comment_prefix_strs = [[35]; [35]].
 Proof. repeat split; reflexivity. Qed.
 Lemma gen_reply_consts : ttl_a = 3600 /\ ttl_aaaa = 3600.
@@ -64,52 +69,21 @@ Qed.
 
 (* ---------------------------------------------------------------- names as strings *)
 
-Definition render' (n : name) : str := flat_map (fun l => l ++ [c_dot]) n.
+Definition okc (c : N) : Prop := c < 256.
+Definition wireP (n : name) : Prop := wire_name n = true.
 
-Lemma render_nonroot n : n <> [] -> render n = render' n.
-Proof. destruct n; [congruence|reflexivity]. Qed.
-
-Definition plainP (n : name) : Prop := plain_name n = true.
-Definition lowerP (n : name) : Prop := lower_name n = true.
-
-Lemma plain_label_inv l : plain_label l = true ->
-  l <> [] /\ Forall (fun c => c <> c_dot /\ c <> c_bs) l.
+Lemma wire_label_inv l : wire_label l = true -> l <> [] /\ Forall okc l.
 Proof.
-  unfold plain_label. intros H. apply andb_true_iff in H as [H1 H2]. split.
+  unfold wire_label. intros H. apply andb_true_iff in H as [H1 H2]. split.
   - destruct l; [discriminate|congruence].
-  - rewrite forallb_forall in H2. apply Forall_forall. intros c Hc. specialize (H2 c Hc).
-    unfold plain_char in H2. apply andb_true_iff in H2 as [A B].
-    apply negb_true_iff, N.eqb_neq in A. apply negb_true_iff, N.eqb_neq in B. easy.
+  - rewrite forallb_forall in H2. apply Forall_forall. intros c Hc. apply N.ltb_lt. now apply H2.
 Qed.
-
-Lemma plainP_cons l n : plainP (l :: n) <-> plain_label l = true /\ plainP n.
-Proof. unfold plainP. cbn. now rewrite andb_true_iff. Qed.
-
-Lemma dot_suffixes_label l rest :
-  Forall (fun c => c <> c_dot /\ c <> c_bs) l ->
-  dot_suffixes (l ++ c_dot :: rest) = rest :: dot_suffixes rest.
-Proof.
-  induction 1 as [|c l [Hc _] _ IH]; cbn.
-  - reflexivity.
-  - apply N.eqb_neq in Hc. rewrite Hc. exact IH.
-Qed.
-
-Lemma render'_cons l n : render' (l :: n) = l ++ c_dot :: render' n.
-Proof. unfold render'. cbn. now rewrite <- app_assoc. Qed.
-
-Lemma render'_nonempty n : n <> [] -> render' n <> [].
-Proof. destruct n as [|l n]; [congruence|]. intros _. rewrite render'_cons. destruct l; discriminate. Qed.
+Lemma wireP_cons l n : wireP (l :: n) <-> wire_label l = true /\ wireP n.
+Proof. unfold wireP. cbn. now rewrite andb_true_iff. Qed.
 
 (* all proper tails, the root included *)
 Fixpoint tails (n : name) : list name :=
   match n with [] => [] | _ :: r => r :: tails r end.
-
-Lemma dot_suffixes_render' n : plainP n -> dot_suffixes (render' n) = map render' (tails n).
-Proof.
-  induction n as [|l n IH]; intros H; [reflexivity|].
-  apply plainP_cons in H as [Hl Hn]. apply plain_label_inv in Hl as [_ Hl].
-  rewrite render'_cons, dot_suffixes_label by exact Hl. cbn. f_equal. now apply IH.
-Qed.
 
 Lemma parents_tails n : parents n = filter (fun p => negb (is_nil p)) (tails n).
 Proof.
@@ -117,142 +91,16 @@ Proof.
   destruct n as [|l' n']; [reflexivity|]. cbn [is_nil negb]. now rewrite IH.
 Qed.
 
-Lemma cands_render' n : plainP n -> cands (render' n) = map render' (parents n).
-Proof.
-  intros H. unfold cands. rewrite dot_suffixes_render' by exact H. rewrite parents_tails.
-  induction (tails n) as [|p t IH]; [reflexivity|]. cbn [map filter].
-  destruct p as [|l p]; cbn [is_nil negb nonempty render' flat_map]; [exact IH|].
-  assert (E : nonempty (render' (l :: p)) = true).
-  { unfold nonempty. destruct (render' (l :: p)) eqn:E; [|reflexivity]. exfalso. now apply (render'_nonempty (l :: p)). }
-  unfold render' in E at 1. cbn [flat_map] in E. rewrite E. cbn [map]. f_equal. exact IH.
-Qed.
-
-Lemma cands_render n : plainP n -> cands (render n) = map render (parents n).
-Proof.
-  intros H. destruct n as [|l n]; [reflexivity|].
-  rewrite render_nonroot by discriminate. rewrite cands_render' by exact H.
-  apply map_ext_in. intros p Hp. symmetry. apply render_nonroot.
-  rewrite parents_tails in Hp. apply filter_In in Hp as [_ Hp]. destruct p; [discriminate|congruence].
-Qed.
-
-(* render is injective on plain names *)
-Lemma app_dot_inj l1 l2 r1 r2 :
-  Forall (fun c => c <> c_dot /\ c <> c_bs) l1 -> Forall (fun c => c <> c_dot /\ c <> c_bs) l2 ->
-  l1 ++ c_dot :: r1 = l2 ++ c_dot :: r2 -> l1 = l2 /\ r1 = r2.
-Proof.
-  intros H1. revert l2. induction H1 as [|c l1 [Hc _] _ IH]; intros l2 H2 E.
-  - destruct H2 as [|d l2 [Hd _] _]; cbn in E; [now injection E|]. injection E as E _. congruence.
-  - destruct H2 as [|d l2 [Hd _] H2]; cbn in E; [injection E as E _; congruence|].
-    injection E as -> E. destruct (IH l2 H2 E) as [-> ->]. easy.
-Qed.
-
-Lemma render'_inj a b : plainP a -> plainP b -> render' a = render' b -> a = b.
-Proof.
-  revert b; induction a as [|l a IH]; intros [|k b] Ha Hb E; try reflexivity.
-  - exfalso. symmetry in E. now apply (render'_nonempty (k :: b)).
-  - exfalso. now apply (render'_nonempty (l :: a)).
-  - apply plainP_cons in Ha as [Hl Ha]. apply plainP_cons in Hb as [Hk Hb].
-    apply plain_label_inv in Hl as [_ Hl]. apply plain_label_inv in Hk as [_ Hk].
-    rewrite !render'_cons in E. destruct (app_dot_inj _ _ _ _ Hl Hk E) as [-> E']. f_equal. now apply IH.
-Qed.
-
-Lemma render_inj a b : plainP a -> plainP b -> render a = render b -> a = b.
-Proof.
-  intros Ha Hb E. destruct a as [|l a], b as [|k b]; try reflexivity.
-  - exfalso. cbn [render] in E. change (flat_map _ (k :: b)) with (render' (k :: b)) in E.
-    rewrite render'_cons in E. apply plainP_cons in Hb as [Hk _]. apply plain_label_inv in Hk as [Hne Hk].
-    destruct k as [|c k]; [congruence|]. cbn in E. injection E as E _. inversion Hk as [|? ? [Hc _] _]. congruence.
-  - exfalso. cbn [render] in E. change (flat_map _ (l :: a)) with (render' (l :: a)) in E.
-    rewrite render'_cons in E. apply plainP_cons in Ha as [Hl _]. apply plain_label_inv in Hl as [Hne Hl].
-    destruct l as [|c l]; [congruence|]. cbn in E. injection E as E _. inversion Hl as [|? ? [Hc _] _]. congruence.
-  - rewrite !render_nonroot in E by discriminate. now apply render'_inj.
-Qed.
-
-Lemma mem_render a M : plainP a -> Forall plainP M -> (mem (render a) (map render M) = true <-> In a M).
-Proof.
-  intros Ha HM. rewrite mem_In, in_map_iff. split.
-  - intros (x & E & Hx). rewrite Forall_forall in HM. apply render_inj in E; [now subst| now apply HM | exact Ha].
-  - intros H. now exists a.
-Qed.
-
-Lemma mem_render_suffix p W : plainP p -> p <> [] -> Forall plainP W ->
-  (mem (render p) (map render_suffix W) = true <-> In p W).
-Proof.
-  intros Hp Hne HW. rewrite mem_In, in_map_iff. split.
-  - intros (x & E & Hx). rewrite Forall_forall in HW. destruct x as [|l x].
-    + exfalso. cbn in E. rewrite render_nonroot in E by exact Hne. symmetry in E. now apply (render'_nonempty p).
-    + change (render_suffix (l :: x)) with (render (l :: x)) in E.
-      apply render_inj in E; [now subst| now apply HW | exact Hp].
-  - intros H. exists p. split; [|exact H]. destruct p; [congruence|reflexivity].
-Qed.
-
-(* ---------------------------------------------------------------- canonical form *)
-
-Lemma lower_not_special c : c <> c_dot /\ c <> c_bs -> lower c <> c_dot /\ lower c <> c_bs.
-Proof.
-  unfold lower, c_dot, c_bs. intros [A B].
-  destruct ((65 <=? c) && (c <=? 90)) eqn:E; [|easy]. apply andb_true_iff in E as [E1 E2].
-  apply N.leb_le in E1, E2. lia.
-Qed.
-
-Lemma fold_plain_label l : plain_label l = true -> plain_label (fold_label l) = true.
-Proof.
-  intros H. apply plain_label_inv in H as [Hne H]. unfold plain_label, fold_label.
-  apply andb_true_iff. split.
-  - destruct l; [congruence|reflexivity].
-  - apply forallb_forall. intros c Hc. apply in_map_iff in Hc as (d & <- & Hd).
-    rewrite Forall_forall in H. destruct (lower_not_special d (H d Hd)) as [A B].
-    unfold plain_char. apply N.eqb_neq in A, B. now rewrite A, B.
-Qed.
-
-Lemma fold_plain n : plainP n -> plainP (fold_name n).
-Proof.
-  unfold plainP, plain_name, fold_name. rewrite !forallb_forall. intros H l Hl.
-  apply in_map_iff in Hl as (k & <- & Hk). apply fold_plain_label. now apply H.
-Qed.
-
 Lemma lower_dot : lower c_dot = c_dot.
 Proof. reflexivity. Qed.
 
-Lemma map_lower_render' n : map lower (render' n) = render' (fold_name n).
+Definition plainc (d : N) : Prop := d <> c_dot /\ d <> c_bs.
+
+Lemma dot_suffixes_plain ds rest : Forall plainc ds -> dot_suffixes (ds ++ rest) = dot_suffixes rest.
 Proof.
-  induction n as [|l n IH]; [reflexivity|].
-  rewrite render'_cons. cbn [fold_name map]. rewrite render'_cons, map_app. cbn [map].
-  rewrite lower_dot. fold (fold_name n). now rewrite IH.
+  induction 1 as [|d ds [H1 H2] _ IH]; [reflexivity|]. cbn [app dot_suffixes].
+  apply N.eqb_neq in H1, H2. now rewrite H1, H2.
 Qed.
-
-Lemma map_lower_render n : map lower (render n) = render (fold_name n).
-Proof.
-  destruct n as [|l n]; [reflexivity|]. rewrite render_nonroot by discriminate.
-  rewrite map_lower_render'. symmetry. apply render_nonroot. discriminate.
-Qed.
-
-Lemma count_bs_plain l rest : l <> [] -> Forall (fun c => c <> c_dot /\ c <> c_bs) l ->
-  count_bs (rev l ++ rest) = O.
-Proof.
-  intros Hne H. destruct (rev l) as [|c r] eqn:E.
-  - apply (f_equal (@rev N)) in E. rewrite rev_involutive in E. cbn in E. congruence.
-  - assert (Hin : In c l). { apply in_rev. rewrite E. now left. }
-    rewrite Forall_forall in H. destruct (H c Hin) as [_ Hb]. cbn. apply N.eqb_neq in Hb. now rewrite Hb.
-Qed.
-
-Lemma is_fqdn_render n : plainP n -> is_fqdn (render n) = true.
-Proof.
-  intros H. destruct n as [|l n]; [reflexivity|]. rewrite render_nonroot by discriminate.
-  (* the last label decides *)
-  assert (exists pre lst, render' (l :: n) = pre ++ lst ++ [c_dot] /\ plain_label lst = true) as (pre & lst & E & Hl).
-  { clear -H. revert l H. induction n as [|k n IH]; intros l H.
-    - exists [], l. apply plainP_cons in H as [Hl _]. split; [|exact Hl]. rewrite render'_cons. reflexivity.
-    - apply plainP_cons in H as [Hl Hn]. destruct (IH k Hn) as (pre & lst & E & Hk).
-      exists (l ++ c_dot :: pre), lst. split; [|exact Hk]. rewrite render'_cons, E. now rewrite <- app_assoc. }
-  unfold is_fqdn. rewrite E, !rev_app_distr. cbn [rev app]. rewrite N.eqb_refl. cbn [andb].
-  apply plain_label_inv in Hl as [Hne Hl]. now rewrite count_bs_plain.
-Qed.
-
-Lemma canonical_render n : plainP n -> canonical (render n) = render (fold_name n).
-Proof. intros H. unfold canonical, fqdn. rewrite is_fqdn_render by exact H. apply map_lower_render. Qed.
-
-(* ---------------------------------------------------------------- parents as a relation *)
 
 Lemma In_tails p n : In p (tails n) <-> strict_parent p n.
 Proof.
@@ -272,85 +120,407 @@ Proof.
   - destruct p; [congruence|reflexivity].
 Qed.
 
-Lemma plain_parents p n : plainP n -> In p (parents n) -> plainP p.
+Section Escaping.
+  (* any way of writing label bytes that the walk can read: a byte is written as
+     itself (then it is neither '.' nor a backslash) or as a backslash, one
+     arbitrary byte, and bytes that are neither; compatible with ASCII folding;
+     uniquely decodable *)
+  Variable esc : N -> str.
+  Hypothesis esc_shape : forall c, okc c ->
+    (esc c = [c] /\ plainc c) \/ (exists x ds, esc c = c_bs :: x :: ds /\ Forall plainc ds).
+  Hypothesis esc_lower : forall c, okc c -> map lower (esc c) = esc (lower c).
+  Hypothesis esc_prefix_free : forall c d s t, okc c -> okc d -> esc c ++ s = esc d ++ t -> c = d.
+
+  Let elabel := label_with esc.
+  Let erender' := render'_with esc.
+  Let erender := render_with esc.
+  Let erender_suffix := render_suffix_with esc.
+
+  Lemma erender_nonroot n : n <> [] -> erender n = erender' n.
+  Proof. destruct n; [congruence|reflexivity]. Qed.
+
+  Lemma erender'_cons l n : erender' (l :: n) = elabel l ++ c_dot :: erender' n.
+  Proof. unfold erender', render'_with. cbn. now rewrite <- app_assoc. Qed.
+
+  Lemma elabel_cons c l : elabel (c :: l) = esc c ++ elabel l.
+  Proof. reflexivity. Qed.
+
+  Lemma esc_head c : okc c -> exists h t, esc c = h :: t /\ h <> c_dot.
+  Proof.
+    intros Hc. destruct (esc_shape c Hc) as [[E [H1 _]]|(x & ds & E & _)]; rewrite E; eexists _, _; split; try reflexivity.
+    - exact H1.
+    - discriminate.
+  Qed.
+
+  Lemma dot_suffixes_esc c rest : okc c -> dot_suffixes (esc c ++ rest) = dot_suffixes rest.
+  Proof.
+    intros Hc. destruct (esc_shape c Hc) as [[E [H1 H2]]|(x & ds & E & Hds)]; rewrite E.
+    - cbn [app dot_suffixes]. apply N.eqb_neq in H1, H2. now rewrite H1, H2.
+    - cbn [app dot_suffixes]. rewrite N.eqb_refl. now apply dot_suffixes_plain.
+  Qed.
+
+  Lemma dot_suffixes_label l rest : Forall okc l ->
+    dot_suffixes (elabel l ++ c_dot :: rest) = rest :: dot_suffixes rest.
+  Proof.
+    induction 1 as [|c l Hc _ IH].
+    - reflexivity.
+    - rewrite elabel_cons, <- app_assoc, dot_suffixes_esc by exact Hc. exact IH.
+  Qed.
+
+  Lemma elabel_nonempty l : l <> [] -> Forall okc l -> elabel l <> [].
+  Proof.
+    intros Hne H. destruct H as [|c l Hc _]; [congruence|]. rewrite elabel_cons.
+    destruct (esc_head c Hc) as (h & t & E & _). rewrite E. discriminate.
+  Qed.
+
+  Lemma erender'_nonempty n : n <> [] -> erender' n <> [].
+  Proof. destruct n as [|l n]; [congruence|]. intros _. rewrite erender'_cons. destruct (elabel l); discriminate. Qed.
+
+  Lemma dot_suffixes_erender' n : wireP n -> dot_suffixes (erender' n) = map erender' (tails n).
+  Proof.
+    induction n as [|l n IH]; intros H; [reflexivity|].
+    apply wireP_cons in H as [Hl Hn]. apply wire_label_inv in Hl as [_ Hl].
+    rewrite erender'_cons, dot_suffixes_label by exact Hl. cbn. f_equal. now apply IH.
+  Qed.
+
+  Lemma cands_erender' n : wireP n -> cands (erender' n) = map erender' (parents n).
+  Proof.
+    intros H. unfold cands. rewrite dot_suffixes_erender' by exact H. rewrite parents_tails.
+    induction (tails n) as [|p t IH]; [reflexivity|]. cbn [map filter].
+    destruct p as [|l p]; cbn [is_nil negb].
+    - exact IH.
+    - assert (E : nonempty (erender' (l :: p)) = true).
+      { unfold nonempty. destruct (erender' (l :: p)) eqn:E; [|reflexivity]. exfalso. now apply (erender'_nonempty (l :: p)). }
+      rewrite E. cbn [map]. f_equal. exact IH.
+  Qed.
+
+  Lemma cands_erender n : wireP n -> cands (erender n) = map erender (parents n).
+  Proof.
+    intros H. destruct n as [|l n]; [reflexivity|].
+    rewrite erender_nonroot by discriminate. rewrite cands_erender' by exact H.
+    apply map_ext_in. intros p Hp. symmetry. apply erender_nonroot.
+    rewrite parents_tails in Hp. apply filter_In in Hp as [_ Hp]. destruct p; [discriminate|congruence].
+  Qed.
+
+  (* unique decoding *)
+  Lemma label_dot_inj l1 l2 r1 r2 : Forall okc l1 -> Forall okc l2 ->
+    elabel l1 ++ c_dot :: r1 = elabel l2 ++ c_dot :: r2 -> l1 = l2 /\ r1 = r2.
+  Proof.
+    intros H1. revert l2. induction H1 as [|c l1 Hc _ IH]; intros l2 H2 E.
+    - destruct H2 as [|d l2 Hd _]; [cbn in E; now injection E|].
+      exfalso. rewrite elabel_cons in E. destruct (esc_head d Hd) as (h & t & Eh & Hh). rewrite Eh in E.
+      cbn in E. injection E as E _. congruence.
+    - destruct H2 as [|d l2 Hd H2].
+      + exfalso. rewrite elabel_cons in E. destruct (esc_head c Hc) as (h & t & Eh & Hh). rewrite Eh in E.
+        cbn in E. injection E as E _. congruence.
+      + rewrite !elabel_cons, <- !app_assoc in E.
+        pose proof (esc_prefix_free c d _ _ Hc Hd E) as ->. apply app_inv_head in E.
+        destruct (IH l2 H2 E) as [-> ->]. easy.
+  Qed.
+
+  Lemma erender'_inj a b : wireP a -> wireP b -> erender' a = erender' b -> a = b.
+  Proof.
+    revert b; induction a as [|l a IH]; intros [|k b] Ha Hb E; try reflexivity.
+    - exfalso. symmetry in E. now apply (erender'_nonempty (k :: b)).
+    - exfalso. now apply (erender'_nonempty (l :: a)).
+    - apply wireP_cons in Ha as [Hl Ha]. apply wireP_cons in Hb as [Hk Hb].
+      apply wire_label_inv in Hl as [_ Hl]. apply wire_label_inv in Hk as [_ Hk].
+      rewrite !erender'_cons in E. destruct (label_dot_inj _ _ _ _ Hl Hk E) as [-> E']. f_equal. now apply IH.
+  Qed.
+
+  Lemma erender_root_ne l a : wireP (l :: a) -> erender (l :: a) <> [c_dot].
+  Proof.
+    intros H E. rewrite erender_nonroot in E by discriminate. rewrite erender'_cons in E.
+    apply wireP_cons in H as [Hl _]. apply wire_label_inv in Hl as [Hne Hl].
+    destruct Hl as [|c l Hc _]; [congruence|]. rewrite elabel_cons in E.
+    destruct (esc_head c Hc) as (h & t & Eh & Hh). rewrite Eh in E. cbn in E. injection E as E _. congruence.
+  Qed.
+
+  Lemma erender_inj a b : wireP a -> wireP b -> erender a = erender b -> a = b.
+  Proof.
+    intros Ha Hb E. destruct a as [|l a], b as [|k b]; try reflexivity.
+    - exfalso. symmetry in E. now apply (erender_root_ne k b).
+    - exfalso. now apply (erender_root_ne l a).
+    - rewrite !erender_nonroot in E by discriminate. now apply erender'_inj.
+  Qed.
+
+  Lemma mem_erender a M : wireP a -> Forall wireP M -> (mem (erender a) (map erender M) = true <-> In a M).
+  Proof.
+    intros Ha HM. rewrite mem_In, in_map_iff. split.
+    - intros (x & E & Hx). rewrite Forall_forall in HM. apply erender_inj in E; [now subst| now apply HM | exact Ha].
+    - intros H. now exists a.
+  Qed.
+
+  Lemma mem_erender_suffix p W : wireP p -> p <> [] -> Forall wireP W ->
+    (mem (erender p) (map erender_suffix W) = true <-> In p W).
+  Proof.
+    intros Hp Hne HW. rewrite mem_In, in_map_iff. split.
+    - intros (x & E & Hx). rewrite Forall_forall in HW. destruct x as [|l x].
+      + exfalso. cbn in E. rewrite erender_nonroot in E by exact Hne. symmetry in E. now apply (erender'_nonempty p).
+      + change (erender_suffix (l :: x)) with (erender (l :: x)) in E.
+        apply erender_inj in E; [now subst| now apply HW | exact Hp].
+    - intros H. exists p. split; [|exact H]. destruct p; [congruence|reflexivity].
+  Qed.
+
+  (* ---- canonical form *)
+  Lemma okc_lower c : okc c -> okc (lower c).
+  Proof.
+    unfold okc, lower. intros H. destruct ((65 <=? c) && (c <=? 90)) eqn:E; [|exact H].
+    apply andb_true_iff in E as [E1 E2]. apply N.leb_le in E1, E2. lia.
+  Qed.
+
+  Lemma fold_wire_label l : wire_label l = true -> wire_label (fold_label l) = true.
+  Proof.
+    intros H. apply wire_label_inv in H as [Hne H]. unfold wire_label, fold_label.
+    apply andb_true_iff. split.
+    - destruct l; [congruence|reflexivity].
+    - apply forallb_forall. intros c Hc. apply in_map_iff in Hc as (d & <- & Hd).
+      rewrite Forall_forall in H. apply N.ltb_lt. apply okc_lower. now apply H.
+  Qed.
+
+  Lemma fold_wire n : wireP n -> wireP (fold_name n).
+  Proof.
+    unfold wireP, wire_name, fold_name. rewrite !forallb_forall. intros H l Hl.
+    apply in_map_iff in Hl as (k & <- & Hk). apply fold_wire_label. now apply H.
+  Qed.
+
+  Lemma map_lower_elabel l : Forall okc l -> map lower (elabel l) = elabel (fold_label l).
+  Proof.
+    induction 1 as [|c l Hc _ IH]; [reflexivity|].
+    rewrite elabel_cons, map_app, IH, esc_lower by exact Hc. reflexivity.
+  Qed.
+
+  Lemma map_lower_erender' n : wireP n -> map lower (erender' n) = erender' (fold_name n).
+  Proof.
+    induction n as [|l n IH]; intros H; [reflexivity|].
+    apply wireP_cons in H as [Hl Hn]. apply wire_label_inv in Hl as [_ Hl].
+    rewrite erender'_cons. cbn [fold_name map]. rewrite erender'_cons, map_app. cbn [map].
+    rewrite lower_dot, map_lower_elabel by exact Hl. fold (fold_name n). now rewrite IH.
+  Qed.
+
+  Lemma map_lower_erender n : wireP n -> map lower (erender n) = erender (fold_name n).
+  Proof.
+    intros H. destruct n as [|l n]; [reflexivity|]. rewrite erender_nonroot by discriminate.
+    rewrite map_lower_erender' by exact H. symmetry. apply erender_nonroot. discriminate.
+  Qed.
+
+  (* the run of backslashes before the final dot is made of whole "\\" pairs *)
+  Lemma even_bs_esc c rest : okc c -> Nat.even (count_bs rest) = true ->
+    Nat.even (count_bs (rev (esc c) ++ rest)) = true.
+  Proof.
+    intros Hc He. destruct (esc_shape c Hc) as [[E [_ H2]]|(x & ds & E & Hds)]; rewrite E.
+    - cbn. apply N.eqb_neq in H2. now rewrite H2.
+    - cbn [rev]. rewrite <- !app_assoc. cbn [app].
+      destruct (rev ds) as [|d r] eqn:Er.
+      + cbn [app count_bs]. destruct (x =? c_bs) eqn:Ex; [|reflexivity].
+        rewrite N.eqb_refl. cbn. exact He.
+      + assert (Hin : In d ds) by (apply in_rev; rewrite Er; now left).
+        rewrite Forall_forall in Hds. destruct (Hds d Hin) as [_ Hb]. cbn. apply N.eqb_neq in Hb. now rewrite Hb.
+  Qed.
+
+  Lemma even_bs_label l rest : Forall okc l -> Nat.even (count_bs rest) = true ->
+    Nat.even (count_bs (rev (elabel l) ++ rest)) = true.
+  Proof.
+    intros H. revert rest. induction H as [|c l Hc _ IH]; intros rest He; [exact He|].
+    rewrite elabel_cons, rev_app_distr, <- app_assoc. apply IH. now apply even_bs_esc.
+  Qed.
+
+  Lemma erender'_app a b : erender' (a ++ b) = erender' a ++ erender' b.
+  Proof. unfold erender', render'_with. apply flat_map_app. Qed.
+
+  Lemma count_bs_rev_erender' ls : count_bs (rev (erender' ls)) = O.
+  Proof.
+    destruct ls as [|x ls] using rev_ind; [reflexivity|].
+    rewrite erender'_app. unfold erender' at 2, render'_with. cbn [flat_map]. rewrite app_nil_r.
+    rewrite !rev_app_distr. reflexivity.
+  Qed.
+
+  Lemma is_fqdn_erender n : wireP n -> is_fqdn (erender n) = true.
+  Proof.
+    intros H. destruct n as [|l n]; [reflexivity|]. rewrite erender_nonroot by discriminate.
+    destruct (@exists_last _ (l :: n)) as (ls & lst & E); [discriminate|]. rewrite E in *.
+    unfold wireP, wire_name in H. rewrite forallb_app in H. apply andb_true_iff in H as [_ Hl].
+    cbn in Hl. rewrite andb_true_r in Hl. apply wire_label_inv in Hl as [_ Hl].
+    rewrite erender'_app. unfold erender' at 2, render'_with. cbn [flat_map]. rewrite app_nil_r.
+    unfold is_fqdn. rewrite !rev_app_distr. cbn [rev app]. rewrite N.eqb_refl. cbn [andb].
+    apply even_bs_label; [exact Hl|]. now rewrite count_bs_rev_erender'.
+  Qed.
+
+  Lemma canonical_erender n : wireP n -> canonical (erender n) = erender (fold_name n).
+  Proof. intros H. unfold canonical, fqdn. rewrite is_fqdn_erender by exact H. now apply map_lower_erender. Qed.
+
+  (* ---- parents as a relation *)
+  Lemma wire_parents p n : wireP n -> In p (parents n) -> wireP p.
+  Proof.
+    intros Hn Hp. rewrite parents_tails in Hp. apply filter_In in Hp as [Hp _].
+    revert p Hp. induction n as [|l n IH]; intros p Hp; [destruct Hp|].
+    apply wireP_cons in Hn as [_ Hn]. destruct Hp as [<-|Hp]; [exact Hn|]. now apply IH.
+  Qed.
+
+  Definition state_with (M W Wl : list name) : bl :=
+    mk_bl (map erender M) (map erender_suffix W) (map erender Wl).
+
+  Lemma existsb_parents_iff (f : str -> bool) (P : name -> Prop) n :
+    (forall p, In p (parents n) -> (f (erender p) = true <-> P p)) ->
+    (existsb f (map erender (parents n)) = true <-> exists p, In p (parents n) /\ P p).
+  Proof.
+    intros H. rewrite existsb_exists. split.
+    - intros (s & Hs & Hf). apply in_map_iff in Hs as (p & <- & Hp). exists p. split; [exact Hp|]. now apply H.
+    - intros (p & Hp & HP). exists (erender p). split; [now apply in_map|]. now apply H.
+  Qed.
+  (* ---- exists_spec, for any such way of writing names *)
+  Lemma exists_spec_with M W Wl q :
+    Forall wireP M -> Forall wireP W -> Forall wireP Wl -> wireP q ->
+    (bl_exists (state_with M W Wl) (erender q) = true <-> blocked_spec M W Wl (fold_name q)).
+  Proof.
+    intros HM HW HWl Hq0.
+    assert (Hq : wireP (fold_name q)) by now apply fold_wire.
+    rewrite bl_exists_alt, canonical_erender by exact Hq0. set (n := fold_name q) in *.
+    unfold hier, blocked_walk, state_with. cbn [bm bwild bw]. rewrite cands_erender by exact Hq.
+    rewrite andb_true_iff, negb_true_iff, and_comm. unfold blocked_spec. apply and_iff_both.
+    - rewrite orb_true_iff. apply or_iff_both; [now apply mem_erender|].
+      rewrite (existsb_parents_iff _ (fun p => In p M \/ In p W)).
+      + split.
+        * intros (p & Hp & HP). apply In_parents in Hp as [A B]. now exists p.
+        * intros (p & A & B & HP). exists p. split; [now apply In_parents|exact HP].
+      + intros p Hp. assert (wireP p) by now apply (wire_parents p n).
+        apply In_parents in Hp as [_ Hne].
+        rewrite orb_true_iff. apply or_iff_both; [now apply mem_erender|now apply mem_erender_suffix].
+    - rewrite <- not_true_iff_false. apply not_iff_compat.
+      rewrite orb_true_iff, (existsb_parents_iff _ (fun p => In p Wl)).
+      + rewrite mem_erender by assumption. split.
+        * intros [H|(p & Hp & H)]; [exists n; split; [now left|exact H]|].
+          apply In_parents in Hp. exists p. split; [now right|exact H].
+        * intros (a & [->|Ha] & H); [now left|]. right. exists a. split; [now apply In_parents|exact H].
+      + intros p Hp. assert (wireP p) by now apply (wire_parents p n). now apply mem_erender.
+  Qed.
+
+  (* a listed name that is only a byte-suffix of the query's first label plays no role *)
+  Lemma label_boundary_with (l x : label) (p : name) :
+    wire_label l = true -> wire_label (x ++ l) = true -> x <> [] -> wireP p ->
+    forall W, Forall wireP W ->
+    bl_exists (state_with [l :: p] W []) (erender ((x ++ l) :: p)) = false <->
+    ~ (exists a, In a (parents (fold_name ((x ++ l) :: p))) /\ (a = l :: p \/ In a W)).
+  Proof.
+    intros Hl Hxl Hx Hp W HW.
+    assert (Hq : wireP ((x ++ l) :: p)) by (apply wireP_cons; easy).
+    assert (HM : Forall wireP [l :: p]) by (constructor; [apply wireP_cons; easy|constructor]).
+    rewrite <- not_true_iff_false. apply not_iff_compat.
+    rewrite (exists_spec_with [l :: p] W [] _ HM HW (Forall_nil _) Hq). unfold blocked_spec. split.
+    - intros [[H|(a & A & B & H)] _].
+      + exfalso. destruct H as [H|[]]. cbn [fold_name map] in H. injection H as H _.
+        apply (f_equal (@length N)) in H. unfold fold_label in H. rewrite map_length, app_length in H.
+        destruct x; [congruence|cbn in H; lia].
+      + exists a. split; [now apply In_parents|]. destruct H as [[H|[]]|H]; [now left|now right].
+    - intros (a & Ha & H). apply In_parents in Ha as [A B]. split.
+      + right. exists a. repeat split; try assumption. destruct H as [->|H]; [left; now left|now right].
+      + intros (b & _ & []).
+  Qed.
+
+  Lemma root_entries_with q : wireP q -> q <> [] ->
+    bl_exists (state_with [[]] [[]] []) (erender q) = false /\
+    bl_exists (state_with [[]] [] []) (erender []) = true /\
+    (forall M W, Forall wireP M -> Forall wireP W ->
+       bl_exists (state_with M W [[]]) (erender q) = bl_exists (state_with M W []) (erender q)).
+  Proof.
+    intros Hq Hne. split; [|split].
+    - apply not_true_iff_false. intros H.
+      apply (exists_spec_with [[]] [[]] []) in H; try (repeat constructor); try exact Hq.
+      destruct H as [[[H|[]]|(p & A & B & [[H|[]]|[H|[]]])] _]; try congruence.
+      destruct q; [congruence|discriminate].
+    - reflexivity.
+    - intros M W HM HW.
+      assert (HR : Forall wireP [[]]) by (repeat constructor).
+      destruct (bl_exists (state_with M W [[]]) (erender q)) eqn:E1, (bl_exists (state_with M W []) (erender q)) eqn:E2; try reflexivity; exfalso.
+      + apply (exists_spec_with M W [[]] q HM HW HR Hq) in E1. apply not_true_iff_false in E2. apply E2.
+        apply (exists_spec_with M W [] q HM HW (Forall_nil _) Hq). destruct E1 as [A _]. split; [exact A|].
+        intros (a & _ & []).
+      + apply (exists_spec_with M W [] q HM HW (Forall_nil _) Hq) in E2. apply not_true_iff_false in E1. apply E1.
+        apply (exists_spec_with M W [[]] q HM HW HR Hq). destruct E2 as [A _]. split; [exact A|].
+        intros (a & [Ea|[_ Ha]] & [Er|[]]); [|congruence]. subst a. destruct q; [congruence|discriminate].
+  Qed.
+End Escaping.
+
+(* ---------------------------------------------------------------- dns.UnpackDomainName's escaping qualifies *)
+
+Definition all_bytes : list N := map N.of_nat (seq 0 256).
+Lemma In_all_bytes c : okc c -> In c all_bytes.
 Proof.
-  intros Hn Hp. apply In_parents in Hp as [(pre & _ & ->) _].
-  unfold plainP, plain_name in *. rewrite forallb_app in Hn. now apply andb_true_iff in Hn.
+  unfold okc, all_bytes. intros H. apply in_map_iff. exists (N.to_nat c). split; [apply N2Nat.id|].
+  apply in_seq. lia.
 Qed.
 
-(* ---------------------------------------------------------------- exists_spec *)
+Definition plainb (d : N) : bool := negb (d =? c_dot) && negb (d =? c_bs).
+Lemma plainb_spec d : plainb d = true -> plainc d.
+Proof. unfold plainb, plainc. intros H. apply andb_true_iff in H as [A B]. apply negb_true_iff, N.eqb_neq in A, B. easy. Qed.
+
+Definition shape_b (c : N) : bool :=
+  match esc_byte c with
+  | [x] => (x =? c) && plainb x
+  | b :: _ :: ds => (b =? c_bs) && forallb plainb ds
+  | [] => false
+  end.
+
+Lemma esc_byte_shape c : okc c ->
+  (esc_byte c = [c] /\ plainc c) \/ (exists x ds, esc_byte c = c_bs :: x :: ds /\ Forall plainc ds).
+Proof.
+  intros Hc. assert (H : forallb shape_b all_bytes = true) by (vm_compute; reflexivity).
+  rewrite forallb_forall in H. specialize (H c (In_all_bytes c Hc)). unfold shape_b in H.
+  destruct (esc_byte c) as [|b [|x ds]]; [discriminate| |].
+  - apply andb_true_iff in H as [A B]. apply N.eqb_eq in A. subst. left. split; [reflexivity|now apply plainb_spec].
+  - apply andb_true_iff in H as [A B]. apply N.eqb_eq in A. subst. right. exists x, ds. split; [reflexivity|].
+    apply Forall_forall. intros d Hd. rewrite forallb_forall in B. now apply plainb_spec, B.
+Qed.
+
+Lemma esc_byte_lower c : okc c -> map lower (esc_byte c) = esc_byte (lower c).
+Proof.
+  intros Hc. assert (H : forallb (fun c => str_eqb (map lower (esc_byte c)) (esc_byte (lower c))) all_bytes = true)
+    by (vm_compute; reflexivity).
+  rewrite forallb_forall in H. apply str_eqb_eq. exact (H c (In_all_bytes c Hc)).
+Qed.
+
+Lemma app_eq_prefix (a b s t : str) : a ++ s = b ++ t -> has_prefix a b = true \/ has_prefix b a = true.
+Proof.
+  revert b; induction a as [|x a IH]; intros [|y b] E; cbn; auto.
+  cbn in E. injection E as -> E. rewrite N.eqb_refl. cbn. now apply IH.
+Qed.
+
+Lemma esc_byte_prefix_free c d s t : okc c -> okc d -> esc_byte c ++ s = esc_byte d ++ t -> c = d.
+Proof.
+  intros Hc Hd E.
+  assert (H : forallb (fun c => forallb (fun d => negb (has_prefix (esc_byte c) (esc_byte d)) || (c =? d)) all_bytes) all_bytes = true)
+    by (vm_compute; reflexivity).
+  rewrite forallb_forall in H.
+  destruct (app_eq_prefix _ _ _ _ E) as [P|P].
+  - specialize (H c (In_all_bytes c Hc)). rewrite forallb_forall in H. specialize (H d (In_all_bytes d Hd)).
+    rewrite P in H. cbn in H. now apply N.eqb_eq.
+  - specialize (H d (In_all_bytes d Hd)). rewrite forallb_forall in H. specialize (H c (In_all_bytes c Hc)).
+    rewrite P in H. cbn in H. symmetry. now apply N.eqb_eq.
+Qed.
 
 Definition state_of (M W Wl : list name) : bl :=
-  mk_bl (map render M) (map render_suffix W) (map render Wl).
-
-Lemma existsb_parents_iff (f : str -> bool) (P : name -> Prop) n :
-  (forall p, In p (parents n) -> (f (render p) = true <-> P p)) ->
-  (existsb f (map render (parents n)) = true <-> exists p, In p (parents n) /\ P p).
-Proof.
-  intros H. rewrite existsb_exists. split.
-  - intros (s & Hs & Hf). apply in_map_iff in Hs as (p & <- & Hp). exists p. split; [exact Hp|]. now apply H.
-  - intros (p & Hp & HP). exists (render p). split; [now apply in_map|]. now apply H.
-Qed.
+  mk_bl (map present M) (map present_suffix W) (map present Wl).
 
 Lemma exists_spec_lemma M W Wl q :
-  Forall plainP M -> Forall plainP W -> Forall plainP Wl -> plainP q ->
-  (bl_exists (state_of M W Wl) (render q) = true <-> blocked_spec M W Wl (fold_name q)).
-Proof.
-  intros HM HW HWl Hq0.
-  assert (Hq : plainP (fold_name q)) by now apply fold_plain.
-  rewrite bl_exists_alt, canonical_render by exact Hq0. set (n := fold_name q) in *.
-  unfold hier, blocked_walk, state_of. cbn [bm bwild bw]. rewrite cands_render by exact Hq.
-  rewrite andb_true_iff, negb_true_iff, and_comm. unfold blocked_spec. apply and_iff_both.
-  - (* the block walk *)
-    rewrite orb_true_iff. apply or_iff_both; [now apply mem_render|].
-    rewrite (existsb_parents_iff _ (fun p => In p M \/ In p W)).
-    + split.
-      * intros (p & Hp & HP). apply In_parents in Hp as [A B]. now exists p.
-      * intros (p & A & B & HP). exists p. split; [now apply In_parents|exact HP].
-    + intros p Hp. assert (plainP p) by now apply (plain_parents p n).
-      apply In_parents in Hp as [_ Hne].
-      rewrite orb_true_iff. apply or_iff_both; [now apply mem_render|now apply mem_render_suffix].
-  - (* the whitelist walk *)
-    rewrite <- not_true_iff_false. apply not_iff_compat.
-    rewrite orb_true_iff, (existsb_parents_iff _ (fun p => In p Wl)).
-    + rewrite mem_render by assumption. split.
-      * intros [H|(p & Hp & H)]; [exists n; split; [now left|exact H]|].
-        apply In_parents in Hp. exists p. split; [now right|exact H].
-      * intros (a & [->|Ha] & H); [now left|]. right. exists a. split; [now apply In_parents|exact H].
-    + intros p Hp. assert (plainP p) by now apply (plain_parents p n). now apply mem_render.
-Qed.
+  Forall wireP M -> Forall wireP W -> Forall wireP Wl -> wireP q ->
+  (bl_exists (state_of M W Wl) (present q) = true <-> blocked_spec M W Wl (fold_name q)).
+Proof. exact (exists_spec_with esc_byte esc_byte_shape esc_byte_lower esc_byte_prefix_free M W Wl q). Qed.
 
-(* reachable memories hold canonical keys, so stored names are lower case; the
-   theorem does not need that hypothesis: matching is exact on stored keys and
-   case-insensitive on the query. *)
-
-(* ---------------------------------------------------------------- label boundary *)
-
-(* a string that merely ends like a listed name, without the cut falling on a
-   label boundary, is not matched: "notexample.com." against "example.com." *)
 Lemma label_boundary_lemma (l x : label) (p : name) :
-  plain_label l = true -> plain_label (x ++ l) = true -> x <> [] -> plainP p ->
-  forall W, Forall plainP W ->
-  bl_exists (state_of [l :: p] W []) (render ((x ++ l) :: p)) = false <->
+  wire_label l = true -> wire_label (x ++ l) = true -> x <> [] -> wireP p ->
+  forall W, Forall wireP W ->
+  bl_exists (state_of [l :: p] W []) (present ((x ++ l) :: p)) = false <->
   ~ (exists a, In a (parents (fold_name ((x ++ l) :: p))) /\ (a = l :: p \/ In a W)).
-Proof.
-  intros Hl Hxl Hx Hp W HW.
-  assert (Hq : plainP ((x ++ l) :: p)) by (apply plainP_cons; easy).
-  assert (HM : Forall plainP [l :: p]) by (constructor; [apply plainP_cons; easy|constructor]).
-  rewrite <- not_true_iff_false. apply not_iff_compat.
-  rewrite (exists_spec_lemma [l :: p] W [] _ HM HW (Forall_nil _) Hq). unfold blocked_spec. split.
-  - intros [[H|(a & A & B & H)] _].
-    + exfalso. destruct H as [H|[]]. cbn [fold_name map] in H. injection H as H _.
-      (* |l| = |fold (x ++ l)| is impossible with x non-empty *)
-      apply (f_equal (@length N)) in H. unfold fold_label in H. rewrite map_length, app_length in H.
-      destruct x; [congruence|cbn in H; lia].
-    + exists a. split; [now apply In_parents|]. destruct H as [[H|[]]|H]; [now left|now right].
-  - intros (a & Ha & H). apply In_parents in Ha as [A B]. split.
-    + right. exists a. repeat split; try assumption. destruct H as [->|H]; [left; now left|now right].
-    + intros (b & _ & []).
-Qed.
+Proof. exact (label_boundary_with esc_byte esc_byte_shape esc_byte_lower esc_byte_prefix_free l x p). Qed.
 
-(* the textbook instance, on the strings the code sees *)
+Lemma root_entries_lemma q : wireP q -> q <> [] ->
+  bl_exists (state_of [[]] [[]] []) (present q) = false /\
+  bl_exists (state_of [[]] [] []) (present []) = true /\
+  (forall M W, Forall wireP M -> Forall wireP W ->
+     bl_exists (state_of M W [[]]) (present q) = bl_exists (state_of M W []) (present q)).
+Proof. exact (root_entries_with esc_byte esc_byte_shape esc_byte_lower esc_byte_prefix_free q). Qed.
+
+(* the textbook instances, on the strings the code sees *)
 Definition s_example_com : str := [101;120;97;109;112;108;101;46;99;111;109;46].
 Definition s_notexample_com : str := [110;111;116] ++ s_example_com.
 Lemma label_boundary_example :
@@ -360,51 +530,16 @@ Lemma label_boundary_example :
   bl_exists (mk_bl [s_example_com] [] []) [69;88;65;77;80;76;69;46;67;79;77] = true.
 Proof. repeat split; reflexivity. Qed.
 
-(* ---------------------------------------------------------------- root entries *)
-
-(* the reading fixed in Spec.v, as facts about the code's model: a plain "."
-   blocks the root name only, "*." blocks nothing, a whitelisted "." exempts the
-   root name only *)
-Lemma root_entries_lemma q : plainP q -> q <> [] ->
-  bl_exists (state_of [[]] [[]] []) (render q) = false /\
-  bl_exists (state_of [[]] [] []) (render []) = true /\
-  (forall M W, Forall plainP M -> Forall plainP W ->
-     bl_exists (state_of M W [[]]) (render q) = bl_exists (state_of M W []) (render q)).
-Proof.
-  intros Hq Hne. split; [|split].
-  - apply not_true_iff_false. intros H.
-    apply (exists_spec_lemma [[]] [[]] []) in H; try (repeat constructor); try exact Hq.
-    destruct H as [[[H|[]]|(p & A & B & [[H|[]]|[H|[]]])] _]; try congruence.
-    destruct q; [congruence|discriminate].
-  - reflexivity.
-  - intros M W HM HW.
-    assert (HR : Forall plainP [[]]) by (repeat constructor).
-    destruct (bl_exists (state_of M W [[]]) (render q)) eqn:E1, (bl_exists (state_of M W []) (render q)) eqn:E2; try reflexivity; exfalso.
-    + apply (exists_spec_lemma M W [[]] q HM HW HR Hq) in E1. apply not_true_iff_false in E2. apply E2.
-      apply (exists_spec_lemma M W [] q HM HW (Forall_nil _) Hq). destruct E1 as [A _]. split; [exact A|].
-      intros (a & _ & []).
-    + apply (exists_spec_lemma M W [] q HM HW (Forall_nil _) Hq) in E2. apply not_true_iff_false in E1. apply E1.
-      apply (exists_spec_lemma M W [[]] q HM HW HR Hq). destruct E2 as [A _]. split; [exact A|].
-      intros (a & [Ea|[_ Ha]] & [Er|[]]); [|congruence]. subst a. destruct q; [congruence|discriminate].
-Qed.
-
-(* ---------------------------------------------------------------- escaped dots: refuted *)
-
-(* Full statement (what "on whole labels" asks for every wire name):
-     forall M W Wl q, bl_exists (state of M W Wl) (presentation of q) = true <-> blocked_spec M W Wl (fold q)
-   with labels that may contain any byte.  It fails as soon as a label contains a
-   dot: the name with the two labels "a.b", "test" (presentation a\.b.test.) is
-   matched by the entry b.test., which is not one of its parents. *)
+(* a label that contains a dot: "a.b" under test. is written a\.b.test. and is not
+   a child of b.test. (it was, before commit 329a134) *)
 Definition esc_query : str := [97; 92; 46; 98; 46; 116; 101; 115; 116; 46].   (* a\.b.test. *)
 Definition esc_entry : str := [98; 46; 116; 101; 115; 116; 46].               (* b.test.    *)
-Lemma escaped_dot_refuted_lemma :
+Lemma escaped_dot_example :
+  present [[97; 46; 98]; [116; 101; 115; 116]] = esc_query /\
   name_of esc_query = [[97; 46; 98]; [116; 101; 115; 116]] /\
-  name_of esc_entry = [[98]; [116; 101; 115; 116]] /\
-  bl_exists (mk_bl [esc_entry] [] []) esc_query = true /\
-  spec_blocked_b [name_of esc_entry] [] [] (name_of esc_query) = false /\
-  (* and the other way round through the whitelist *)
-  bl_exists (mk_bl [] [[116; 101; 115; 116; 46]] [esc_entry]) esc_query = false /\
-  spec_blocked_b [] [name_of [116; 101; 115; 116; 46]] [name_of esc_entry] (name_of esc_query) = true.
+  bl_exists (mk_bl [esc_entry] [] []) esc_query = false /\
+  bl_exists (mk_bl [[116; 101; 115; 116; 46]] [] []) esc_query = true /\
+  bl_exists (mk_bl [] [[116; 101; 115; 116; 46]] [esc_entry]) esc_query = true.
 Proof. repeat split; reflexivity. Qed.
 
 (* the executable specification agrees with the propositional one *)
